@@ -333,7 +333,11 @@ def _emit_fn(g, source, a, blocks, vacuity):
                         if ";" in inner or not expr.rstrip().endswith("}"):
                             outp.append(t.text); k += 1; continue
                         expr = inner
-                    outp.append(f"|{params}| -> (o: {a['closure_ty']}) ensures o == {expr} {{ {expr} }}")
+                    if params.startswith("("):
+                        # Verus closures take plain variables only: destructure inside
+                        outp.append(f"|r18_p| -> (o: {a['closure_ty']}) ensures ({{ let {params} = r18_p; o == {expr} }}) {{ let {params} = r18_p; {expr} }}")
+                    else:
+                        outp.append(f"|{params}| -> (o: {a['closure_ty']}) ensures o == {expr} {{ {expr} }}")
                     rules.append(("R18", f"closure `|{params}| {expr}` annotated with `ensures o == {expr}`"))
                     k = close_idx
                     hit += 1
@@ -392,6 +396,16 @@ def _emit_fn(g, source, a, blocks, vacuity):
             outp.append(t.text)
             k += 1
         body = "".join(outp)
+    if a.get("mut_self"):
+        # R4f: a by-value `mut self` receiver (builder pattern) is not supported by Verus: `self` + a mutable local copy
+        if not re.search(r"\(\s*mut\s+self\b", sigtext):
+            raise ExtractError(f"anchor lost: `mut self` receiver in {f.name}")
+        sigtext = re.sub(r"\(\s*mut\s+self\b", "(self", sigtext, count=1)
+        tk = tokenize(body)
+        renamed = "".join(("r4_self" if (t.kind == "ident" and t.text == "self") else t.text) for t in tk)
+        first = renamed.index("{")
+        body = renamed[:first + 1] + "\n        let mut r4_self = self;" + renamed[first + 1:]
+        rules.append(("R4f", "`mut self` -> `self` + `let mut r4_self = self;`, `self` renamed to `r4_self` in the body"))
     if a.get("alias_get_mut"):
         # R4e: with R4 the receiver already is `&mut self`; `self.get_mut()` (Pin::get_mut) is the identity
         body = replace_pattern(body, "self.get_mut()", "self", f.name, int(a.get("alias_get_mut_count", 1)))
@@ -418,14 +432,34 @@ def _emit_fn(g, source, a, blocks, vacuity):
     for ia in blocks["inserts"]:
         txt = "\n" + "\n".join(ia["text"]) + "\n"
         nth = int(ia.get("nth", 1))
-        if "after" in ia:
-            body = insert_after_pattern(body, ia["after"], txt, f.name, nth=nth)
-        elif "arm_last" in ia:
-            body = insert_after_pattern(body, ia["arm_last"], txt, f.name, nth=nth, arm_last=True)
-        elif "arm_end" in ia:
-            body = insert_after_pattern(body, ia["arm_end"], txt, f.name, nth=nth, arm_end=True)
-        else:
-            body = insert_after_pattern(body, ia["before"], txt, f.name, before=True, nth=nth)
+        if "loop_start" in ia or "loop_end" in ia:
+            # anchored on the n-th loop of the function, whatever its header looks like
+            from rsx import loop_positions, match_close as _mc2
+            ltoks, lpos = loop_positions(body)
+            n = int(ia.get("loop_start") or ia.get("loop_end"))
+            if n < 1 or n > len(lpos):
+                raise ExtractError(f"anchor lost: loop {n} of {f.name} (function has {len(lpos)} loops)")
+            brace = lpos[n - 1][1]
+            at = brace + 1 if "loop_start" in ia else _mc2(ltoks, brace)
+            body = "".join(t.text for t in ltoks[:at]) + txt + "".join(t.text for t in ltoks[at:])
+            continue
+        try:
+            if "after" in ia:
+                body = insert_after_pattern(body, ia["after"], txt, f.name, nth=nth)
+            elif "arm_last" in ia:
+                body = insert_after_pattern(body, ia["arm_last"], txt, f.name, nth=nth, arm_last=True)
+            elif "arm_end" in ia:
+                body = insert_after_pattern(body, ia["arm_end"], txt, f.name, nth=nth, arm_end=True)
+            else:
+                body = insert_after_pattern(body, ia["before"], txt, f.name, before=True, nth=nth)
+        except ExtractError:
+            # fallback anchors: the same ghost text at another place where the same facts hold
+            if "alt_after" in ia:
+                body = insert_after_pattern(body, ia["alt_after"], txt, f.name)
+            elif "alt_before" in ia:
+                body = insert_after_pattern(body, ia["alt_before"], txt, f.name, before=True)
+            else:
+                raise
     loops = {n: "\n".join(v) for n, v in blocks["loops"].items()}
     body = insert_loop_specs(body, loops, f.name)
     spec = "\n".join(blocks["spec"])
